@@ -182,6 +182,12 @@ func (v Val) Go() any {
 		return NamedStruct(int(v.I))
 	case "sharedptr":
 		return SharedPtr(int(v.I))
+	case "intmap":
+		out := make(map[int]string, len(v.K))
+		for i := range v.K {
+			out[i+1] = v.V[i].S
+		}
+		return out
 	case "deep":
 		// a map nested v.I levels deep: {"d": {"d": ... {"leaf": v.I}}}
 		var cur any = map[string]any{"leaf": int(v.I)}
